@@ -201,6 +201,13 @@ embedded_pairing_core_arch_x86_64_bigint_768_square:
     adc %rbx, %rbx
     adc %r9, %r9
 
+    # The doubling can carry out of the tenth word (when the top two words of
+    # the operand both have their top bit set); that carry belongs to the top
+    # word of the result.
+    movq $0, %rax
+    adc $0, %rax
+    movq %rax, 88(%rdi)
+
     # Add diagonal (r8 stores the carry)
     movq (%rsi), %rax
     mulq %rax
@@ -233,7 +240,7 @@ embedded_pairing_core_arch_x86_64_bigint_768_square:
     add %rax, %r9
     movq %r9, 80(%rdi)
     adc $0, %rdx
-    movq %rdx, 88(%rdi)
+    addq %rdx, 88(%rdi)
 
     pop %r15
     pop %r14
